@@ -79,6 +79,18 @@ LIMITS = [
     "DIMENSION (rejected by the code's isinstance test) is not expressible in the glue and not generated",
     "kernel_regularizer tuples for RTL: elements of the outer tuple that are neither tuples nor lists (a Keras "
     "identifier such as 'l2', a callable) are not expressible in the glue and not generated",
+    "late rejection rule (failure class late_shape_check_in_standalone_constraints): a STANDALONE constraint object "
+    "(LinearConstraints, CategoricalCalibrationConstraints) learns the weight shape only at its first call; a plain "
+    "ValueError raised there by the same verify / sort function ('does not correspond to number of weights', "
+    "'indices in range', 'Circular monotonicity constraints') is counted as a (late) REJECTION, not as a failure of "
+    "an accepted configuration, and such a case is not compared with the Coq decision model. In particular a "
+    "dominance cycle of length >= 3 in a standalone LinearConstraints (the constructor only rejects self pairs and "
+    "2-cycles) falls under this rule and is NOT reported, whereas the same cycle in the Linear LAYER is the open "
+    "known finding D59 (class linear_dominance_cycle)",
+    "known-finding classes are matched by (constructor kind, stage, exception class, message fragment, the argument "
+    "condition that defines the finding); for D48 (zero_sized_argument) by an explicit table of (kind, argument "
+    "that is 0, stage, exception, message fragment) rows, see _D48_MODES: any other failure of a configuration "
+    "with a zero-sized argument is reported",
 ]
 
 # ----------------------------------------------------------------------------
@@ -2854,8 +2866,10 @@ def eval_constructor(desc):
     info["syn_class"] = run2.cls
     if run2.cls != run.cls:
       info["fclass"] = failure_class(desc, dec(desc["syn"]), run2) if run2.cls == "fail" else "synonym_class_differs"
-      for k2, r2 in ((kw, run), (dec(desc["syn"]), run2)):
-        if r2.cls == "rejected" and _p16(desc["kind"], k2, r2.stage, r2.exc, r2.msg or "", desc):
+      # D44 stands only for the pair (the 'None' spelling rejected by its own message, the twin spelling ACCEPTED)
+      for k2, r2, other in ((kw, run, run2), (dec(desc["syn"]), run2, run)):
+        if (r2.cls == "rejected" and other.cls == "accepted" and
+            _p16(desc["kind"], k2, r2.stage, r2.exc, r2.msg or "", desc)):
           info["fclass"] = "pwl_convexity_none_spelling"
       fail = "synonymous spelling changes the outcome: %s -> %s, but %s -> %s (%s %s)" % (
           info["call"], run.cls, info["syn_call"], run2.cls, run2.exc, run2.msg)
@@ -3030,8 +3044,9 @@ def _p9(kind, kw, stage, exc, msg, desc):
 
 @pattern("empty_tuple_constraint_arg")
 def _p10(kind, kw, stage, exc, msg, desc):
+  # D46: the Lattice LAYER constructor indexes x[0] of a tuple-wrapped constraint argument that is the empty tuple
   return (kind == "Lattice" and stage == "construct" and exc == "IndexError" and "tuple index out of range" in msg and
-          any(kw.get(a) == () for a in _TUPLE_WRAPPED))
+          any(isinstance(kw.get(a), tuple) and len(kw[a]) == 0 for a in _TUPLE_WRAPPED))
 
 
 @pattern("dominance_same_dim")
@@ -3042,63 +3057,157 @@ def _p11(kind, kw, stage, exc, msg, desc):
           ("Circular monotonicity" in msg or "not in range" in msg))
 
 
+def _is_none_spelling(v, table):
+  """None, 0 / 0.0 or a (case-insensitive) 'none' string: the canonical value 0 of the given spelling table."""
+  return v is None or _ci(v, table) == 0
+
+
+def _int_pairs(ps):
+  return [tuple(p) for p in (ps or []) if isinstance(p, (list, tuple)) and len(p) == 2 and
+          all(_is_int(x) for x in p)] if isinstance(ps, (list, tuple)) else []
+
+
 @pattern("linear_bounds_shorter_than_dims")
 def _p12(kind, kw, stage, exc, msg, desc):
-  return kind in _LINEAR and exc == "IndexError" and "list index out of range" in msg and bool(
-      kw.get("range_dominances"))
+  # D45: only the STANDALONE LinearConstraints (the layer knows num_input_dims and rejects short bound lists with a
+  # ValueError); the IndexError is input_min[dim] / input_max[dim] for a range-dominance dimension beyond the list
+  lens = [len(kw[a]) for a in ("input_min", "input_max") if isinstance(kw.get(a), (list, tuple))]
+  beyond = bool(lens) and any(d >= min(lens) for p in _int_pairs(kw.get("range_dominances")) for d in p)
+  return (kind == "LinearConstraints" and stage == "construct" and exc == "IndexError" and
+          "index out of range" in msg and beyond)
 
 
 @pattern("linear_constraints_none_monotonicities")
 def _p13(kind, kw, stage, exc, msg, desc):
-  return (kind in _LINEAR and stage == "project" and exc == "TypeError" and "'NoneType' object is not iterable" in msg
-          and _falsy_monos(kw))
+  # D47: standalone LinearConstraints with monotonicities None / [] (the Linear layer always passes a list)
+  return (kind == "LinearConstraints" and stage == "project" and exc == "TypeError" and
+          "'NoneType' object is not iterable" in msg and _falsy_monos(kw))
 
 
 @pattern("cyclic_equal_slopes_initializer")
 def _p14(kind, kw, stage, exc, msg, desc):
-  return (kind == "PWLCalibration" and stage == "build" and exc == "TypeError" and kw.get("is_cyclic") and
-          kw.get("kernel_initializer") == "equal_slopes")
+  # D42: k keypoint values for the k-1 rows of a cyclic kernel
+  return (kind == "PWLCalibration" and stage == "build" and exc == "TypeError" and "unsupported shape" in msg and
+          kw.get("is_cyclic") is True and kw.get("kernel_initializer") == "equal_slopes")
 
 
 @pattern("clamp_without_monotonicity")
 def _p15(kind, kw, stage, exc, msg, desc):
-  return (kind in ("PWLCalibration", "PWLCalibrationConstraints") and stage == "project" and exc == "ValueError" and
-          "Clamping is not implemented" in msg)
+  # D43: a clamp is configured while the monotonicity is 'none'; accepted, the first projection raises
+  if kind == "PWLCalibration":
+    clamped = ((kw.get("clamp_min") is True and kw.get("output_min") is not None) or
+               (kw.get("clamp_max") is True and kw.get("output_max") is not None))
+  elif kind == "PWLCalibrationConstraints":
+    clamped = "CLAMPED" in (kw.get("output_min_constraints"), kw.get("output_max_constraints"))
+  else:
+    return False
+  return (stage == "project" and exc == "ValueError" and
+          "Clamping is not implemented for non monotonic functions" in msg and clamped and
+          _is_none_spelling(kw.get("monotonicity", "none"), MONO_SP))
 
 
 @pattern("pwl_convexity_none_spelling")
 def _p16(kind, kw, stage, exc, msg, desc):
+  # D44: convexity spelled 'None' / 'NONE' (not the lower-case 'none') together with learned_interior keypoints
   c = kw.get("convexity")
-  return (kind == "PWLCalibration" and stage == "construct" and "learned_interior" in msg and
+  return (kind == "PWLCalibration" and stage == "construct" and exc == "ValueError" and
+          "'learned_interior' and impose convexity" in msg and kw.get("input_keypoints_type") == "learned_interior" and
           isinstance(c, str) and c.lower() == "none" and c != "none")
+
+
+def _is_zero(kw, a):
+  v = kw.get(a)
+  return _is_int(v) and v == 0
+
+
+def _single_joint_group_over_all_features(kw):
+  """Exactly ONE joint unimodality group and it contains every lattice dimension (decoded kwargs)."""
+  ju, sizes = kw.get("joint_unimodalities"), kw.get("lattice_sizes")
+  if not isinstance(sizes, (list, tuple)) or not sizes:
+    return False
+  if isinstance(ju, tuple) and len(ju) == 2 and not isinstance(ju[1], (list, tuple)):
+    ju = [ju]             # the single (dims, direction) form
+  if not isinstance(ju, (list, tuple)) or len(ju) != 1:
+    return False
+  g = ju[0]
+  if not (isinstance(g, (list, tuple)) and len(g) == 2 and isinstance(g[0], (list, tuple))):
+    return False
+  return set(g[0]) == set(range(len(sizes)))
+
+
+# D48, one row per documented failure mode:
+#   (kind, the argument that is 0, stages, exception class, message fragments (any), extra condition on kwargs)
+# Rows marked [+] are consequences of the same accepted zero that the text of D48 does not spell out (reported to
+# the maintainer of known_findings.json together with this narrowing); every other failure of a configuration with a
+# zero-sized argument is reported.
+_D48_MODES = [
+    ("KroneckerFactoredLattice", "units", ("call",), "InvalidArgumentError", ("Input to reshape",), None),
+    # [+] units=0 with a kernel constraint (monotonicities or bounds): the constraint fails before call()
+    ("KroneckerFactoredLattice", "units", ("project",), "ZeroDivisionError", ("modulo by zero",), None),
+    # [+] lattice_sizes=0 with a monotone dimension: the kernel constraint indexes an empty list
+    ("KroneckerFactoredLattice", "lattice_sizes", ("project",), "IndexError", ("list index out of range",),
+     lambda kw: bool(kw.get("monotonicities"))),
+    # [+] num_terms=0: no InvalidArgumentError, the output is NaN (mean over zero terms)
+    ("KroneckerFactoredLattice", "num_terms", ("call",), "NonFinite", ("non-finite values [nan",), None),
+    ("CDF", "sparsity_factor", ("build",), "ZeroDivisionError", ("modulo by zero", "division by zero"), None),
+    ("CDF", "num_keypoints", ("call",), "NonFinite", ("non-finite values [nan",), None),
+    # CategoricalCalibration(num_buckets=0) is accepted; its first call then fails inside TensorFlow
+    ("CategoricalCalibration", "num_buckets", ("call",), "InvalidArgumentError",
+     ("Can not squeeze dim", "Incompatible shapes"), None),
+    ("PWLCalibration", "units", ("build",), "InvalidArgumentError", ("ConcatOp",), None),
+    # Lattice(units=0) is a ValueError at build EXCEPT with the random_uniform fall-back of the default initializer
+    ("Lattice", "units", ("project", "finalize"), "InvalidArgumentError", ("Input to reshape",),
+     lambda kw: "kernel_initializer" not in kw and _single_joint_group_over_all_features(kw)),
+    # RTL zero counts: num_lattices / lattice_rank / lattice_size = 0 are ValueErrors; num_terms=0 is handed to the
+    # KroneckerFactoredLattice members (NaN output, or a ConcatOp shape error when the outputs are combined)
+    ("RTL", "num_terms", ("call",), "NonFinite", ("non-finite values [nan",),
+     lambda kw: kw.get("parameterization") == "kronecker_factored"),
+    ("RTL", "num_terms", ("call",), "InvalidArgumentError", ("ConcatOp",),
+     lambda kw: kw.get("parameterization") == "kronecker_factored"),
+]
 
 
 @pattern("zero_sized_argument")
 def _p17(kind, kw, stage, exc, msg, desc):
-  zero = any(kw.get(a) == 0 and kw.get(a) is not False for a in (
-      "lattice_sizes", "units", "num_terms", "num_keypoints", "sparsity_factor", "num_buckets", "num_lattices",
-      "lattice_rank"))
-  if kind in ("PWLCalibration", "Lattice"):
-    # units=0: PWLCalibration.build raises InvalidArgumentError; Lattice with the random_uniform fall-back (one joint
-    # unimodality over all features) is built and its first projection raises InvalidArgumentError
-    return kw.get("units") == 0 and kw.get("units") is not False and exc == "InvalidArgumentError"
-  return kind in ("KroneckerFactoredLattice", "CDF", "CategoricalCalibration", "RTL") and zero
+  for k, arg, stages, e, frags, cond in _D48_MODES:
+    if (kind == k and _is_zero(kw, arg) and stage in stages and exc == e and any(f in msg for f in frags) and
+        (cond is None or cond(kw))):
+      return True
+  return False
+
+
+_CDF_ACTIVATIONS = ("relu6", "sigmoid")
+_CDF_REDUCTIONS = ("mean", "geometric_mean", "none")
 
 
 @pattern("cdf_option_checked_at_call")
 def _p18(kind, kw, stage, exc, msg, desc):
+  # D49: the option named by the message is the configured one and is not one of the implemented values
+  a, r = kw.get("activation", "relu6"), kw.get("reduction", "mean")
   return kind == "CDF" and stage == "call" and exc == "ValueError" and (
-      "Invalid activation" in msg or "Invalid reduction" in msg)
+      (a not in _CDF_ACTIVATIONS and "Invalid activation: %s" % (a,) in msg) or
+      (a in _CDF_ACTIVATIONS and r not in _CDF_REDUCTIONS and "Invalid reduction: %s" % (r,) in msg))
 
 
 @pattern("premade_empty_feature_configs")
 def _p19(kind, kw, stage, exc, msg, desc):
-  return kind == "premade" and exc == "IndexError" and kw.get("features") == []
+  # D50: CalibratedLattice on a config whose feature_configs is the empty list
+  return (kind == "premade" and stage == "construct" and exc == "IndexError" and "index out of range" in msg and
+          kw.get("model") == "lattice" and kw.get("features") == [])
 
 
 @pattern("premade_unknown_feature_in_lattices")
 def _p20(kind, kw, stage, exc, msg, desc):
-  return kind == "premade" and exc == "KeyError" and kw.get("model") == "ensemble"
+  # D51: the KeyError names a feature that an explicit `lattices` entry uses and feature_configs does not define
+  lattices = (kw.get("model_kw") or {}).get("lattices")
+  feats = kw.get("features")
+  if not (isinstance(lattices, list) and isinstance(feats, list)):
+    return False
+  defined = set(f.get("name") for f in feats if isinstance(f, dict))
+  used = set(n for l in lattices if isinstance(l, (list, tuple)) for n in l if isinstance(n, str))
+  missing = used - defined
+  return (kind == "premade" and stage == "construct" and exc == "KeyError" and kw.get("model") == "ensemble" and
+          any(msg.strip() in (repr(n), n) for n in missing))
 
 
 @pattern("late_shape_check_in_standalone_constraints")
@@ -3125,14 +3234,19 @@ def _p23(kind, kw, stage, exc, msg, desc):
 
 @pattern("linear_dominance_cycle")
 def _p25(kind, kw, stage, exc, msg, desc):
-  n = len(kw.get("monotonic_dominances") or []) + len(kw.get("range_dominances") or [])
-  return kind == "Linear" and stage == "project" and exc == "ValueError" and "Circular monotonicity" in msg and n >= 3
+  # D59: the Linear LAYER; the monotonic dominances or the range dominances (each list is sorted on its own by
+  # linear_lib.project) really contain a directed cycle (self pairs and 2-cycles are ValueErrors of the constructor)
+  cyc = _pairs_cyclic(_int_pairs(kw.get("monotonic_dominances"))) or _pairs_cyclic(_int_pairs(kw.get("range_dominances")))
+  return (kind == "Linear" and stage == "project" and exc == "ValueError" and
+          "Circular monotonicity constraints" in msg and cyc)
 
 
 @pattern("empty_lattice_sizes")
 def _p26(kind, kw, stage, exc, msg, desc):
+  # D60: Lattice(lattice_sizes=[]) (or ()) accepted by the constructor, ZeroDivisionError at build
   ls = kw.get("lattice_sizes")
-  return kind == "Lattice" and isinstance(ls, (list, tuple)) and len(ls) == 0 and exc == "ZeroDivisionError"
+  return (kind == "Lattice" and stage == "build" and exc == "ZeroDivisionError" and "division by zero" in msg and
+          isinstance(ls, (list, tuple)) and len(ls) == 0)
 
 
 @pattern("bare_string_regularizer")
